@@ -134,6 +134,10 @@ pub struct TreeSpec {
     /// served directory relative to the scratch base, e.g. "o1/o2/root"
     pub root: String,
     pub entries: Vec<Entry>,
+    /// 0: every entry gets a fixed recent mtime; otherwise entries also get mtimes before 1970,
+    /// at the epoch, beyond 2038 and far in the future (chosen by entry index)
+    #[serde(default)]
+    pub mtime_mode: u8,
 }
 
 // ------------------------------------------------------------------------------------- connections
